@@ -500,3 +500,12 @@ def w6(ctx):
 
 
 RULES.append(w6)
+
+
+@rule("G9", doc="a class that shrinks gets a group over the kept slots only (C10.G9)")
+def g9(ctx):
+    from . import c10
+    c10.g9(ctx)
+
+
+RULES.append(g9)
